@@ -104,6 +104,21 @@ func (c *Ctx) QueryName(prefix, label string) string {
 	}
 }
 
+// VarName draws the name of a path variable: mostly [a-z0-9], sometimes with the
+// punctuation real specs use (pet-id, shop.id, user_id).
+func (c *Ctx) VarName(label string) string {
+	w := c.PlainName("v", label)
+	switch rapid.IntRange(0, 7).Draw(c.T, label+"_punct") {
+	case 0:
+		return w + "-id"
+	case 1:
+		return w + ".id"
+	case 2:
+		return w + "_id"
+	}
+	return w
+}
+
 // PlainName is SafeName restricted to [a-z0-9] (for path segments and variables).
 func (c *Ctx) PlainName(prefix, label string) string {
 	stem := rapid.SampledFrom(stems).Draw(c.T, label+"_stem")
@@ -557,6 +572,10 @@ func (c *Ctx) oneOfSchema(depth int) *Schema {
 			s.OneOf = append(s.OneOf, &Schema{Ref: RefSchemas + name})
 			if withMapping && (i == n-1 || rapid.IntRange(0, 2).Draw(t, "mapped") != 0) {
 				key := c.PlainName("m", "mapkey")
+				// (a key that merely repeats the schema's own name is common in hand-written specs)
+				if rapid.IntRange(0, 3).Draw(t, "mapkey_identity") == 0 {
+					key = name
+				}
 				if rapid.Bool().Draw(t, "mapfull") {
 					s.Discriminator.Mapping[key] = RefSchemas + name
 				} else {
@@ -776,7 +795,7 @@ func (c *Ctx) Templates(maxN, maxDepth int) []Template {
 	for _, tp := range out {
 		for j, s := range tp {
 			if s == "{}" {
-				tp[j] = "{" + c.PlainName("v", "var") + "}"
+				tp[j] = "{" + c.VarName("var") + "}"
 			}
 		}
 	}
@@ -812,6 +831,7 @@ func BaseForms() []BaseForm {
 		{Name: "flag-trailing-slash", Flag: "/x/"},
 		{Name: "first-server-without-path", Servers: []*Server{{URL: "https://h.example"}, {URL: "https://staging.example/v2"}}, Expected: ""},
 		{Name: "first-server-variable-host-only", Servers: []*Server{{URL: "https://{region}.api.example.com", Variables: map[string]*ServerVariable{"region": {Default: "eu"}}}, {URL: "/v3"}}, Expected: ""},
+		{Name: "server-variable-empty-default", Servers: []*Server{{URL: "https://h.example/api{version}", Variables: map[string]*ServerVariable{"version": {Default: ""}}}}, Expected: "/api"},
 		{Name: "server-variable-used-twice", Servers: []*Server{{URL: "https://{region}.api.example.com/{region}/{version}", Variables: map[string]*ServerVariable{"region": {Default: "eu"}, "version": {Default: "v2"}}}}, Expected: "/eu/v2"},
 	}
 }
